@@ -191,8 +191,9 @@ CHECKS["C08"] = {
     "level_note": _E2E_NOTE + " Header order across different names and exact message framing are not observable through net/http and not part of the statement. Cookie lines are compared after joining with '; ' (RFC 9113 8.2.3).",
     "assumptions": ["requests always carry a User-Agent (otherwise Go clients add one themselves)", "Expect: 100-continue and Upgrade are not generated"],
     "units": [{"name": "c08", "pkg": "c08", "run": "^Test", "shards": 12, "timeout": {"quick": 900, "thorough": 7200}, "thorough_scale": 0.75},
-              {"name": "c08w", "pkg": ".", "overlay": "root", "run": "^TestVerifWiringC08$", "shards": 2}],
-    "expect_checks": ["c08.passthrough", "c08.wiring"],
+              {"name": "c08w", "pkg": ".", "overlay": "root", "run": "^TestVerifWiringC08$", "shards": 2},
+              {"name": "c08u", "pkg": ".", "overlay": "root", "run": "^TestVerifWiringC08Upload$", "shards": 4}],
+    "expect_checks": ["c08.passthrough", "c08.wiring", "c08.wiring-upload"],
 }
 
 CHECKS["C06"] = {
